@@ -3,7 +3,7 @@
     with them. *)
 From Coq Require Import List Arith NArith Bool String.
 From Verif Require Import Lib.Sched Kv.KeyOrd Kv.AList Kv.Spec Kv.Mem Kv.Sql Kv.Skel Kv.Refine
-  Kv.KvGen Kv.Atomic Kv.AtomicSql Kv.AtomicCor Gen.KvSql Gen.KvMemSkel.
+  Kv.SeqFacts Kv.KvGen Kv.Atomic Kv.AtomicSql Kv.AtomicCor Gen.KvSql Gen.KvMemSkel.
 Import ListNotations.
 Local Open Scope string_scope.
 
@@ -55,19 +55,17 @@ Proof. reflexivity. Qed.
 
 Local Close Scope string_scope.
 
-(** ** The theorems for the generated statement tables *)
+(** ** The theorems for the statement table generated from sqlite3_kv.go
+
+    (psql_kv.go has the same statement sequences, but the lock ladder of
+    Kv/AtomicSql.v is SQLite's: PostgreSQL's MVCC isolation levels are not
+    modelled and nothing is claimed here about psqlKV under concurrency.) *)
 
 Lemma gen_sql_serializable bprog db0 cfg :
   qreachable gen_sqlite_methods (qinit bprog db0) cfg ->
   run (sql_step gen_sqlite_methods) db0 (qops (applied (qdone cfg)))
   = (qdb cfg, qresults (applied (qdone cfg))).
 Proof. rewrite gen_sqlite_methods_frozen. exact (sql_serializable bprog db0 cfg). Qed.
-
-Lemma gen_psql_serializable bprog db0 cfg :
-  qreachable gen_psql_methods (qinit bprog db0) cfg ->
-  run (sql_step gen_psql_methods) db0 (qops (applied (qdone cfg)))
-  = (qdb cfg, qresults (applied (qdone cfg))).
-Proof. rewrite gen_psql_methods_frozen. exact (sql_serializable bprog db0 cfg). Qed.
 
 Lemma gen_sql_serializable_spec bprog db0 cfg :
   qreachable gen_sqlite_methods (qinit bprog db0) cfg ->
@@ -77,3 +75,60 @@ Lemma gen_sql_serializable_spec bprog db0 cfg :
   run spec_step (abs db0) (qops (applied (qdone cfg)))
   = (abs (qdb cfg), qresults (applied (qdone cfg))).
 Proof. rewrite gen_sqlite_methods_frozen. exact (sql_serializable_spec bprog db0 cfg). Qed.
+
+Lemma gen_sql_no_lost_update bprog db0 cfg k g c v0 :
+  qreachable gen_sqlite_methods (qinit bprog db0) cfg -> nodupk db0 ->
+  (forall i, forallb bop_okb (bprog i) = true) ->
+  (forall i, Forall (SeqFacts.incr_or_other k g) (bprog i)) ->
+  @lookup entry k db0 = Some (c, v0) ->
+  let ops := qops (applied (qdone cfg)) in
+  lookup k (abs (qdb cfg)) = Some (c, Nat.iter (List.length (SeqFacts.key_ops k ops)) g v0) /\
+  SeqFacts.key_results k ops (qresults (applied (qdone cfg)))
+  = repeat RUnit (List.length (SeqFacts.key_ops k ops)).
+Proof. rewrite gen_sqlite_methods_frozen. exact (sql_no_lost_update bprog db0 cfg k g c v0). Qed.
+
+Lemma gen_sql_add_once bprog db0 cfg k :
+  qreachable gen_sqlite_methods (qinit bprog db0) cfg -> nodupk db0 ->
+  (forall i, forallb bop_okb (bprog i) = true) ->
+  (forall i, Forall (SeqFacts.add_or_other k) (bprog i)) ->
+  @lookup entry k db0 = None ->
+  let ops := qops (applied (qdone cfg)) in
+  match SeqFacts.key_ops k ops with
+  | [] => lookup k (abs (qdb cfg)) = None
+  | BAdd _ c v :: rest =>
+      lookup k (abs (qdb cfg)) = Some (c, v) /\
+      SeqFacts.key_results k ops (qresults (applied (qdone cfg)))
+      = RUnit :: repeat (RErr EExists) (List.length rest)
+  | _ => False
+  end.
+Proof. rewrite gen_sqlite_methods_frozen. exact (sql_add_once bprog db0 cfg k). Qed.
+
+Lemma gen_sql_emplace_keeps_first bprog db0 cfg k :
+  qreachable gen_sqlite_methods (qinit bprog db0) cfg -> nodupk db0 ->
+  (forall i, forallb bop_okb (bprog i) = true) ->
+  (forall i, Forall (SeqFacts.emplace_or_other k) (bprog i)) ->
+  @lookup entry k db0 = None ->
+  match SeqFacts.key_ops k (qops (applied (qdone cfg))) with
+  | [] => lookup k (abs (qdb cfg)) = None
+  | BEmplace _ c v :: _ => lookup k (abs (qdb cfg)) = Some (c, v)
+  | _ => False
+  end.
+Proof. rewrite gen_sqlite_methods_frozen. exact (sql_emplace_keeps_first bprog db0 cfg k). Qed.
+
+Lemma gen_sql_append_all_once bprog db0 cfg k :
+  qreachable gen_sqlite_methods (qinit bprog db0) cfg -> nodupk db0 ->
+  (forall i, forallb bop_okb (bprog i) = true) ->
+  (forall i, Forall (SeqFacts.append_or_other k) (bprog i)) ->
+  let ops := qops (applied (qdone cfg)) in
+  lookup k (abs (qdb cfg))
+  = match lookup k db0, SeqFacts.key_ops k ops with
+    | None, [] => None
+    | None, _ => Some ([], List.concat (map SeqFacts.appended (SeqFacts.key_ops k ops)))
+    | Some (c, v0), _ => Some (c, v0 ++ List.concat (map SeqFacts.appended (SeqFacts.key_ops k ops)))
+    end.
+Proof. rewrite gen_sqlite_methods_frozen. exact (sql_append_all_once bprog db0 cfg k). Qed.
+
+Lemma gen_sql_snapshot_stable bprog db0 cfg i k f v todo :
+  qreachable gen_sqlite_methods (qinit bprog db0) cfg ->
+  qths cfg i = QRead k f v todo -> exists c, lookup k (qdb cfg) = Some (c, v).
+Proof. rewrite gen_sqlite_methods_frozen. exact (sql_snapshot_stable bprog db0 cfg i k f v todo). Qed.
